@@ -23,6 +23,16 @@ ids = sys.argv[2:] or sorted(props)
 os.makedirs('/tmp/sa_prompts', exist_ok=True)
 
 STYLE = {
+    't': ('This time YOU choose the mechanism, with one goal: assume the property is guarded by an automated randomized test '
+          'generator that draws many small and a few large random circuits / tables / operand lists / call sequences, runs '
+          'every public entry point of the functionality with every option, and compares the result with an independent '
+          'reference implementation. Think about which realistic defect such a generator would be LEAST likely to hit, and '
+          'make that one: e.g. a co-occurrence of three or more individually common features; a dependence on the text of '
+          'a label or on the order in which gates were created rather than on the structure; a rare gate type in a rare '
+          'position; a state that only a specific sequence of three or more DIFFERENT public calls reaches; an interaction '
+          'with object identity, hashing or equality of user-supplied values; a value that is wrong only when two independent '
+          'quantities coincide. It must still be something a maintainer could plausibly write, and a user could plausibly '
+          'run into. Do not add comments that point at the flaw.'),
     's': ('This time the change must only show at a SCALE or BOUNDARY that small examples do not reach, or in a DEGENERATE '
           'case: a threshold on a count, width, arity, depth, index or length (more than 8 / 16 / 32 / 64 of something, a '
           'power of two, a value that needs a second machine word or a second chunk / row / level of a recursive construction, '
